@@ -17,7 +17,9 @@ func init() {
 			if err != nil {
 				panic(err)
 			}
-			n.Events().NotifyJoin(n.MLNode("b", 1, nil))
+			meta := serf.VEncodeTags(n.S, map[string]string{"role": "web"})
+			k, err := n.KnowPeers([]world.Peer{world.AlivePeer("b", 1, meta), world.AlivePeer("c", 2, meta)}, nil)
+			fmt.Println("join", k, err, "mlmembers", n.S.Memberlist().NumMembers())
 			vsched.Quiesce()
 			fmt.Println("members", n.SortedMembers())
 			n.S.UserEvent("deploy", []byte("x"), false)
